@@ -732,6 +732,8 @@ class Messenger(Connection):
                         self._in_sess_func()
 
                 elif msgcls == messages.SessionTerm:
+                    if not self._in_sess:
+                        raise RejectError(messages.RejectMsg.Reason.UNEXPECTED)
                     # Send a reply (if not the initiator)
                     if not self._in_term:
                         self.send_sess_term(pkt.payload.reason, True)
